@@ -190,6 +190,7 @@ def check_c03(pid, tier, seed, replay):
     rj += [{"prog": M.operand_family(rng), "input": []} for _ in range(30 if quick else 800)]
     rj += [{"prog": M.selfret_family(rng), "input": []} for _ in range(12 if quick else 300)]
     rj += [{"prog": M.twolabel_family(rng), "input": []} for _ in range(16 if quick else 400)]
+    rj += [{"prog": M.lastswitch_family(rng), "input": []} for _ in range(8 if quick else 200)]
     rj += [{"prog": [M.C(5, 1, 0), M.C(5, 1, 3)] + c["prog"], "input": M.cps("a")} for c in rj[:20 if quick else 500]]
     cpath2 = os.path.join(work, "cases_rj.json")
     M.write_cases(cpath2, rj)
